@@ -220,11 +220,17 @@ def equivalence_variants(src_text: str, qual: str):
     for n in ast.walk(fn0):
         if isinstance(n, ast.Name) and isinstance(n.ctx, ast.Store) and n.id not in params and n.id not in locals_ and not n.id.startswith("_"):
             locals_.append(n.id)
-    nested = any(isinstance(n, (ast.FunctionDef, ast.Lambda)) and n is not fn0 for n in ast.walk(fn0))
+    nested_params = set()
+    for n in ast.walk(fn0):
+        if isinstance(n, (ast.FunctionDef, ast.Lambda)) and n is not fn0:
+            a_ = n.args
+            nested_params |= {x.arg for x in a_.posonlyargs + a_.args + a_.kwonlyargs}
+            if isinstance(n, ast.FunctionDef):
+                nested_params.add(n.name)
     globals_ = {x for n in ast.walk(fn0) if isinstance(n, (ast.Global, ast.Nonlocal)) for x in n.names}
-    if not nested:
+    if True:
         for name in locals_[:6]:
-            if name in globals_:
+            if name in globals_ or name in nested_params:
                 continue
             t = copy.deepcopy(base)
             fn = _func_node(t, qual)
@@ -232,6 +238,64 @@ def equivalence_variants(src_text: str, qual: str):
                 if isinstance(n, ast.Name) and n.id == name:
                     n.id = name + "_r"
             yield (f"rename local `{name}`", _unparse(t))
+    # annotations added to / removed from every plain assignment of the function
+    t = copy.deepcopy(base)
+    fn = _func_node(t, qual)
+    k = 0
+    for blk in _blocks(fn):
+        for i, st in enumerate(blk):
+            if isinstance(st, ast.Assign) and len(st.targets) == 1 and isinstance(st.targets[0], (ast.Name, ast.Attribute)):
+                blk[i] = ast.AnnAssign(target=st.targets[0], annotation=ast.Name(id="object", ctx=ast.Load()), value=st.value, simple=int(isinstance(st.targets[0], ast.Name)), lineno=st.lineno)
+                k += 1
+            elif isinstance(st, ast.AnnAssign) and st.value is not None:
+                blk[i] = ast.Assign(targets=[st.target], value=st.value, lineno=st.lineno)
+                k += 1
+    if k:
+        yield (f"toggle type annotations on {k} assignments", _unparse(t))
+    # extract variable: a call-free sub-expression of a simple statement is hoisted into a fresh local right before it
+    done = 0
+    for bi, blk0 in enumerate(_blocks(fn0)):
+        for si, st0 in enumerate(blk0):
+            if done >= 6 or not isinstance(st0, (ast.Assign, ast.AugAssign, ast.Expr, ast.Return)):
+                continue
+            val0 = st0.value
+            if val0 is None or any(isinstance(x, (ast.Lambda, ast.ListComp, ast.SetComp, ast.DictComp, ast.GeneratorExp, ast.NamedExpr, ast.Yield, ast.YieldFrom, ast.Await, ast.IfExp, ast.BoolOp)) for x in ast.walk(val0)):
+                continue
+            if isinstance(st0, ast.Expr) and isinstance(val0, ast.Call) and ast.unparse(val0.func).startswith("logger."):
+                continue
+            cands = []
+            for e in ast.walk(val0):
+                if e is val0 and isinstance(st0, ast.Assign) and isinstance(st0.targets[0], ast.Name):
+                    continue            # hoisting the whole right-hand side of `x = e` only introduces an alias
+                if isinstance(e, (ast.BinOp, ast.Compare, ast.Subscript)) or (isinstance(e, ast.Attribute) and isinstance(e.ctx, ast.Load)):
+                    if any(isinstance(x, ast.Call) for x in ast.walk(e)):
+                        continue
+                    if isinstance(e, ast.Attribute) and any(isinstance(p_, ast.Call) and p_.func is e for p_ in ast.walk(val0)):
+                        continue        # the callee expression of a call
+                    if any(isinstance(p_, ast.Attribute) and p_.value is e and any(isinstance(c_, ast.Call) and c_.func is p_ for c_ in ast.walk(val0)) for p_ in ast.walk(val0)):
+                        continue        # receiver of a method call
+                    epos = (e.lineno, e.col_offset)
+                    if any(isinstance(c_, ast.Call) and (c_.lineno, c_.col_offset) < epos and not any(x is e for x in ast.walk(c_)) for c_ in ast.walk(val0)):
+                        continue        # a call would run before the hoisted read
+                    if isinstance(st0, ast.AugAssign) and ast.unparse(st0.target) in ast.unparse(e):
+                        continue
+                    cands.append(e)
+            if not cands:
+                continue
+            e0 = max(cands, key=lambda x: len(ast.unparse(x)))
+            t = copy.deepcopy(base)
+            blk = _blocks(_func_node(t, qual))[bi]
+            st = blk[si]
+            target = next(x for x in ast.walk(st.value) if type(x) is type(e0) and getattr(x, "lineno", None) == e0.lineno and getattr(x, "col_offset", None) == e0.col_offset
+                          and ast.unparse(x) == ast.unparse(e0))
+            tmp = f"hoisted_{done}"
+            if target is st.value:
+                st.value = ast.Name(id=tmp, ctx=ast.Load())
+            elif not _replace(st.value, target, ast.Name(id=tmp, ctx=ast.Load())):
+                continue
+            blk.insert(si, ast.Assign(targets=[ast.Name(id=tmp, ctx=ast.Store())], value=target, lineno=st.lineno))
+            done += 1
+            yield (f"extract `{ast.unparse(e0)[:50]}` of line {st0.lineno} into a local", _unparse(t))
     # no-op insertion at the top of the function
     t = copy.deepcopy(base)
     fn = _func_node(t, qual)
